@@ -295,6 +295,70 @@ def _h_truncated(kind, nlit):
     return fn
 
 
+# ---------------------------------------------------------------- the selected mailbox vanishes under the session
+VANISH = ['delete', 'rename']
+AFTER = ['append1', 'append2', 'append_own', 'status', 'noop', 'create', 'copy', 'store', 'expunge', 'close']
+
+
+def vanished(g, sim, how, op):
+    """session 0 has Other selected; session 1 deletes / renames it; then session 0 issues `op`.  A command that is
+    answered NO or BAD must not have changed any mailbox; APPEND that is answered OK stored everything."""
+    w = sim.World(g, 2)
+    w.append(0, 'Other', flags=[g['Deleted']])
+    w.append(0, 'INBOX')
+    w.select(0, 'Other')
+    if how == 'delete':
+        w.run(1, g['DeleteCommand'](w.tag(), g['Mailbox']('Other')))
+    else:
+        w.run(1, g['RenameCommand'](w.tag(), g['Mailbox']('Other'), g['Mailbox']('Gone'), g['ExtensionOptions'].empty()))
+
+    def snap():
+        out = {}
+        for name in sorted(w.mset._set.keys()) + ['INBOX']:
+            out[name] = [(u, tuple(sorted(str(f) for f in fl))) for u, fl, _ in w.dump(name)]
+        return out
+    before = snap()
+    if op == 'append1':
+        cond, _ = w.append(0, 'INBOX', n=1)
+    elif op == 'append2':
+        cond, _ = w.append(0, 'INBOX', n=2)
+    elif op == 'append_own':
+        cond, _ = w.append(0, 'Other', n=1)
+    elif op == 'status':
+        cond, _ = w.run(0, g['StatusCommand'](w.tag(), g['Mailbox']('INBOX'), [g['StatusAttribute'](b'MESSAGES')]))
+    elif op == 'noop':
+        cond, _ = w.noop(0)
+    elif op == 'create':
+        cond, _ = w.run(0, g['CreateCommand'](w.tag(), g['Mailbox']('New'), g['ExtensionOptions'].empty()))
+    elif op == 'copy':
+        cond, _ = w.copy(0, [1], 'INBOX')
+    elif op == 'store':
+        cond, _ = w.store(0, [1], [g['Seen']], 'ADD')
+    elif op == 'expunge':
+        cond, _ = w.expunge(0)
+    else:
+        cond, _ = w.close(0)
+    after = snap()
+    if cond in ('NO', 'BAD') and after != before:
+        return '%s after the selected mailbox was %sd answered %s but changed the mailboxes: %r -> %r' % (
+            op, how, cond, before, after)
+    if cond == 'OK' and op in ('append1', 'append2'):
+        want = len(before['INBOX']) + (1 if op == 'append1' else 2)
+        if len(after['INBOX']) != want:
+            return '%s answered OK and INBOX holds %d messages, expected %d' % (op, len(after['INBOX']), want)
+    return None
+
+
+def _h_vanished():
+    def fn(eng):
+        from pysymex import Outcome
+        how = VANISH[eng.choose('how', len(VANISH))]
+        op = AFTER[eng.choose('op', len(AFTER))]
+        err = vanished(_g, _g['_sim'], how, op)
+        return Outcome(err is None, witness=lambda m: {'how': how, 'op': op}, info=err)
+    return fn
+
+
 def harnesses(tier):
     from pysymex.runner import Harness
     from checks import _conc
@@ -302,6 +366,9 @@ def harnesses(tier):
     extra = [Harness('interleaved_commands[tasks=%d,delays<=%d]' % (nt, nd), _conc.adders_harness(_g, nt, 'conservation', nd),
                      {'tasks': nt, 'ops': _conc.ADD_OPS, 'third_party_delays': nd}, replay='adders', task_budget=60)
              for nt, nd in ([(2, 3)] if q else [(2, 6), (3, 3)])]
+    extra.append(Harness('selected_mailbox_vanishes', _h_vanished(),
+                         {'how': VANISH, 'then': AFTER, 'oracle': 'NO/BAD leaves every mailbox unchanged; OK APPEND stored everything'},
+                         replay='vanished', task_budget=60))
     for kind in range(len(STREAMS)):
         extra.append(Harness('dropped_inside[%s]' % STREAMS[kind], _h_truncated(kind, 2),
                              {'command': STREAMS[kind], 'cut': 'every byte position', 'literal_bytes': 'symbolic'},
@@ -314,6 +381,9 @@ def harnesses(tier):
 def replay(harness, w):
     from checks import _sim
     g = _sim.bindings()
+    if harness == 'vanished':
+        err = vanished(g, _sim, w['how'], w['op'])
+        return {'violates': err is not None, 'detail': err, 'kind': 'vanished', 'category': 'selected mailbox vanished: ' + w['op']}
     if harness == 'truncated':
         from checks import _conn
         from pymap.imap import IMAPConnection
